@@ -1,9 +1,9 @@
-import AdfObdd.NgHalt
 import AdfObdd.ClosureSound
-import AdfObdd.Stutter
 import AdfObdd.SearchModel
 import AdfObdd.Stable
 import AdfObdd.NgEndToEnd
+import AdfObdd.NgChannel
+import AdfObdd.NgPartialHeu
 /-! # C05 — the nogood-learning search is exact and terminates for every heuristic
 
 **Main theorem** `ng_search_exact` (= `ng_search_statement`): for the CONCRETE executable model
@@ -35,38 +35,17 @@ How it is proved (files `NgGen`, `NgGenHalt`, `NgSem`, `NgConcrete`, `NgLeaf`, `
    `heuristics_total`), hence `concrete_iteration_is_abstract_iteration`; the oracle is read off the
    concrete run itself.
 
-The prototype theorems on the `PA`-level machine (`exact_if_halts`, `terminates`, `stutter_transfer`)
-are kept below. -/
+**Channel clause** (`channel_variants_statement`, `channel_variants_deliver_exactly`): the search as a
+producer that `send`s each model into a channel (unbounded or bounded) and drops the sender when
+`nogood_internal` returns, a consumer iterating over the receiver, EVERY schedule of the two
+(`Channel.lean`, `NgChannel.lean`); `iterator_variant_exact` is `stable_nogood`.
+
+**Heuristics that give no answer** (`heuristic_totality_necessary`): `HeuOK.total` cannot be dropped
+(`NgPartialHeu.lean`).
+
+The prototype theorems on the `PA`-level machine (`exact_if_halts`, `terminates`, `stutter_transfer`) are
+not connected to `SM.ngSearch` any more and live in `AdfObdd/NgPrototype.lean` (namespace `NgProto`). -/
 namespace C05
-
-/-! ## the prototype abstract machine (decided parts only) -/
-
-/-- safety: if the run halts, the emitted list is exactly the target models (stable models, or
-two-valued models in two-valued mode), each once — for every valid heuristic -/
-theorem exact_if_halts {T : Asg → Prop} {P : Params} (hP : Sound T P) (fuel : Nat) (s s' : St)
-    (hinv : SInv T P s) (hr : run P fuel s = some s') :
-    (∀ σ, T σ → ∃ o ∈ s'.out, Matches o σ) ∧ (∀ o ∈ s'.out, ∀ σ, Matches o σ → T σ) ∧ s'.out.Nodup :=
-  run_exact hP fuel s s' hinv hr
-
-/-- the initial state (the grounded interpretation, empty store and stack) satisfies the invariant -/
-theorem init_invariant {T : Asg → Prop} {P : Params} (g : PA) (hg : ∀ σ, T σ → Matches g σ) :
-    SInv T P { cur := g, store := [], stack := [], backtrack := false, choice := false, out := [] } :=
-  inv_init g hg
-
-/-- liveness: the run from the initial state halts — for every heuristic oracle satisfying the
-liveness laws (it proposes an undecided statement), given the closure laws -/
-theorem terminates {P : Params} {n : Nat} {mu : PA → Nat} (hL : Live P n mu)
-    (cl_direct : ∀ st A, (∃ g ∈ st, PSub g A) → P.closure st A = Closure.inconsistent) (g : PA) :
-    ∃ fuel s', run P fuel { cur := g, store := [], stack := [], backtrack := false, choice := false, out := [] } = some s' :=
-  halts hL cl_direct g
-
-/-- generic stuttering-simulation lemma that carries halting and the final abstract state (hence
-the emitted list) from the abstract to the concrete loop -/
-theorem stutter_transfer {C A : Type} {cstep : C → StutterM.SRes C} {astep : A → StutterM.SRes A} {abs : C → A}
-    {settled : C → Prop} (h : StutterM.StutterSim cstep astep abs settled)
-    (fuel : Nat) (c : C) (a' : A) (hr : StutterM.srun astep fuel (abs c) = some a') :
-    ∃ fuel' c', fuel' ≤ 2 * fuel ∧ StutterM.srun cstep fuel' c = some c' ∧ abs c' = a' :=
-  StutterM.stutter_halts h fuel c a' hr
 
 /-! ## the generic machine (any vector type, any store type, shape-relativised laws) -/
 
@@ -241,6 +220,124 @@ theorem builtin_heuristics_valid (h : SM.Heu) (s : Store) (v : List Nat) (time i
   rw [List.mem_zipIdx_iff_getElem?]
   simpa using h3
 
+
+/-! ## the channel variants -/
+
+/-- what "the models, each once" means for a list of handle vectors (the right-hand side of `ng_search_statement`) -/
+def ExactModels (s : Store) (n : Nat) (ac : List Nat) (stable : Bool) (res : List (List Nat)) : Prop :=
+  let D := ac.map (eval s)
+  let out := res.map (fun v => v.map storeIsConst)
+  out.Nodup ∧ ∀ v : I3, v ∈ out ↔
+    (v.length = n ∧ TotalI v ∧ Gam D v = v ∧
+      (stable = true → ∀ w : I3, IsLfp (redu D v) w → ∀ i : Nat, v[i]? = some (some true) → w[i]? = some (some true)))
+
+/-- full statement of the channel clause for `stable_nogood_channel` (`stable = true`) and
+`two_val_nogood_channel` (`stable = false`): there is a list `res` - the list `SM.ngSearch` returns, which is
+exactly the stable resp. two-valued models, each once - such that for EVERY channel capacity (`none` =
+unbounded, `some k` = `bounded(k)`) and EVERY schedule of producer and consumer steps
+ 1. what the consumer has received, followed by what is queued, is a prefix of `res`;
+ 2. once the sender is dropped, received ++ queued = `res`, and the events at the sending end were: one `send`
+    per element of `res`, in order, then the `close` - and (3.) before that no `close`;
+ 4. whenever the consumer's `for … in receiver` has ended, it has received exactly `res` (same order, same
+    multiplicities) and the channel is closed and empty;
+ 5. if the capacity is ≥ 1, every schedule with `m` fair rounds (`m` ≥ the total work) ends the consumer's loop;
+ 6. after the sender is dropped nothing changes at the sending end under any continuation of the schedule. -/
+def channel_variants_statement : Prop :=
+  ∀ (h : SM.Heu) (s : Store) (n : Nat) (ac : List Nat) (stable : Bool),
+    WF s → ac.length = n → (∀ t ∈ ac, t < s.nodes.size) →
+    (stable = false → ∀ t ∈ ac, ∀ σ τ : Asg, (∀ i, i < n → σ i = τ i) → eval s t σ = eval s t τ) →
+    ∃ fuel, (SM.ngSearch h fuel s n ac stable).2.2.2 = true ∧
+      let res := (SM.ngSearch h fuel s n ac stable).2.1
+      ExactModels s n ac stable res ∧
+      ∀ (cap : Option Nat) (sched : List Chan.Ev),
+        let c := NConc.chanRun (SM.heuCall h) cap sched s n ac stable
+        (c.got ++ c.buf <+: res) ∧
+        (c.closed = true → c.got ++ c.buf = res ∧ c.log = res.map Chan.ChEv.send ++ [Chan.ChEv.close]) ∧
+        (c.closed = false → ∀ e ∈ c.log, e ≠ Chan.ChEv.close) ∧
+        (c.consDone = true → c.got = res ∧ c.closed = true ∧ c.buf = []) ∧
+        ((∀ k, cap = some k → 1 ≤ k) → ∀ m, Chan.Fair m sched → fuel + res.length + 1 + res.length + 1 ≤ m →
+            c.consDone = true) ∧
+        (c.closed = true → ∀ more : List Chan.Ev,
+            let c' := NConc.chanRun (SM.heuCall h) cap (sched ++ more) s n ac stable
+            c'.closed = true ∧ c'.log = c.log ∧ c'.got ++ c'.buf = c.got ++ c.buf)
+
+/-- the same for the loop run with ANY heuristic function satisfying `NConc.HeuOK` -/
+theorem channel_variants_any_heuristic (hc : NConc.CHeu) (hok : NConc.HeuOK hc) (s : Store) (n : Nat) (ac : List Nat)
+    (stable : Bool) (w0 : WF s) (hn : ac.length = n) (hac0 : ∀ t ∈ ac, t < s.nodes.size)
+    (hsup : stable = false → ∀ t ∈ ac, ∀ σ τ : Asg, (∀ i, i < n → σ i = τ i) → eval s t σ = eval s t τ) :
+    ∃ fuel, (NConc.cSearch hc fuel s n ac stable).2.2.2 = true ∧
+      let res := (NConc.cSearch hc fuel s n ac stable).2.1
+      ExactModels s n ac stable res ∧
+      ∀ (cap : Option Nat) (sched : List Chan.Ev),
+        let c := NConc.chanRun hc cap sched s n ac stable
+        (c.got ++ c.buf <+: res) ∧
+        (c.closed = true → c.got ++ c.buf = res ∧ c.log = res.map Chan.ChEv.send ++ [Chan.ChEv.close]) ∧
+        (c.closed = false → ∀ e ∈ c.log, e ≠ Chan.ChEv.close) ∧
+        (c.consDone = true → c.got = res ∧ c.closed = true ∧ c.buf = []) ∧
+        ((∀ k, cap = some k → 1 ≤ k) → ∀ m, Chan.Fair m sched → fuel + res.length + 1 + res.length + 1 ≤ m →
+            c.consDone = true) ∧
+        (c.closed = true → ∀ more : List Chan.Ev,
+            let c' := NConc.chanRun hc cap (sched ++ more) s n ac stable
+            c'.closed = true ∧ c'.log = c.log ∧ c'.got ++ c'.buf = c.got ++ c.buf) := by
+  obtain ⟨fuel, hd, hex⟩ := ng_search_exact_any_heuristic hc hok s n ac stable w0 hn hac0 hsup
+  refine ⟨fuel, hd, hex, ?_⟩
+  intro cap sched
+  have ⟨a, b, c, d, e⟩ := NConc.channel_delivers hc cap s n ac stable hd sched
+  exact ⟨a, b, c, d, e, fun hcl more => NConc.channel_frozen_after_close hc cap s n ac stable sched more hcl⟩
+
+/-- **C05, channel clause**: the channel variants deliver exactly the stable (resp. two-valued) models, each
+once, in the order in which `SM.ngSearch` lists them, under every schedule and every capacity; the sender is
+dropped exactly after the last model was sent, nothing is sent afterwards, and the consumer's loop over the
+channel ends (under every fair schedule) having received exactly that list -/
+theorem channel_variants_deliver_exactly : channel_variants_statement := by
+  intro h s n ac stable w hn hv hsup
+  have := channel_variants_any_heuristic (SM.heuCall h) (NConc.heuOK_builtin h) s n ac stable w hn hv hsup
+  simp only [← NConc.ngSearch_eq] at this
+  exact this
+
+/-- **the iterator variant `stable_nogood`**: unbounded channel created inside, the whole search first, the
+sender dropped at its end, then `r.iter().collect()`: the collection ends and is exactly the list of stable
+models `SM.ngSearch` returns (`a`, `b` = numbers of producer / consumer steps granted, any sufficiently large) -/
+theorem iterator_variant_exact (h : SM.Heu) (s : Store) (n : Nat) (ac : List Nat) (w : WF s) (hn : ac.length = n)
+    (hv : ∀ t ∈ ac, t < s.nodes.size) :
+    ∃ fuel, (SM.ngSearch h fuel s n ac true).2.2.2 = true ∧
+      let res := (SM.ngSearch h fuel s n ac true).2.1
+      ExactModels s n ac true res ∧
+      ∀ a b, fuel + res.length + 1 ≤ a → res.length + 1 ≤ b →
+        let c := NConc.chanRun (SM.heuCall h) none (List.replicate a Chan.Ev.prod ++ List.replicate b Chan.Ev.cons) s n ac true
+        c.consDone = true ∧ c.got = res := by
+  obtain ⟨fuel, hd, hex⟩ := ng_search_exact h s n ac true w hn hv (fun hc => by cases hc)
+  refine ⟨fuel, hd, hex, ?_⟩
+  intro a b ha hb
+  rw [NConc.ngSearch_eq] at hd ha hb ⊢
+  exact NConc.iterator_variant (SM.heuCall h) s n ac true hd a b ha hb
+
+/-! ## heuristics that give no answer -/
+
+/-- what the code does with a heuristic answer `None` (`adf.rs:851-853`: `backtrack = true`): the iteration
+continues exactly as after a conflict; on an empty stack the search ends -/
+theorem none_answer_is_a_conflict (hc : NConc.CHeu) (n : Nat) (ac : List Nat) (stable : Bool) (st : SM.NgS)
+    (hch : st.choice = true) (hn : hc st.s st.cur st.time = none) :
+    NConc.cIter hc n ac stable st =
+      NConc.cIter hc n ac stable { st with choice := false, backtrack := true, trace := st.trace ++ [st.cur], time := st.time + 1 } ∧
+    (st.stack = [] → (NConc.cIter hc n ac stable st).done = true ∧ (NConc.cIter hc n ac stable st).out = st.out) :=
+  ⟨NConc.cIter_none hc n ac stable st hch hn, NConc.cIter_none_empty_stack hc n ac stable st hch hn⟩
+
+/-- **`HeuOK.total` is necessary** (why `ng_search_exact_any_heuristic` asks a custom heuristic to answer whenever
+something is undecided): for EVERY framework with two different models `v1 ≠ v2` (in the sense of the right-hand
+side of `ng_search_exact`) and EVERY heuristic that answers `None` the first time it is asked, the search halts
+with the EMPTY result - both models, and all others, are lost -/
+theorem heuristic_totality_necessary (hc : NConc.CHeu) (hfirst : ∀ st v, hc st v 0 = none)
+    (s : Store) (n : Nat) (ac : List Nat) (stable : Bool)
+    (w0 : WF s) (hn : ac.length = n) (hac0 : ∀ t ∈ ac, t < s.nodes.size)
+    (hsup : stable = false → ∀ t ∈ ac, ∀ σ τ : Asg, (∀ i, i < n → σ i = τ i) → eval s t σ = eval s t τ)
+    (v1 v2 : I3) (hne : v1 ≠ v2)
+    (m : ∀ v, v = v1 ∨ v = v2 → (v.length = n ∧ TotalI v ∧ Gam (ac.map (eval s)) v = v ∧
+          (stable = true → ∀ w : I3, IsLfp (redu (ac.map (eval s)) v) w → ∀ i : Nat, v[i]? = some (some true) → w[i]? = some (some true)))) :
+    ∃ fuel, (NConc.cSearch hc fuel s n ac stable).2.2.2 = true ∧ (NConc.cSearch hc fuel s n ac stable).2.1 = [] :=
+  NConc.first_call_none_models hc hfirst s n ac stable w0 hn hac0 hsup _ rfl _ (fun _ => Iff.rfl) v1 v2
+    (m v1 (Or.inl rfl)) (m v2 (Or.inr rfl)) hne
+
 /-! ## non-vacuity -/
 
 /-- the hypotheses of `ng_search_exact` are satisfiable and its right-hand side is inhabited: one
@@ -287,6 +384,62 @@ example (h : SM.Heu) : ∃ fuel,
     · congr 1; exact constOf_some.mpr (fun σ => by simp [over, upd])
     · congr 1; congr 1; exact constOf_some.mpr (fun σ => by simp [over, upd])
 
+
+theorem mutual_support_models : ∀ v : I3, v = [some false, some false] ∨ v = [some true, some true] →
+    (v.length = [Fm.atom 1, Fm.atom 0].length ∧ TotalI v ∧ Gam ([Fm.atom 1, Fm.atom 0].map Fm.sem) v = v ∧
+      (false = true → ∀ w : I3, IsLfp (redu ([Fm.atom 1, Fm.atom 0].map Fm.sem) v) w →
+        ∀ i : Nat, v[i]? = some (some true) → w[i]? = some (some true))) := by
+  intro v hv
+  rcases hv with rfl | rfl
+  · refine ⟨rfl, ?_, ?_, fun hc => by cases hc⟩
+    · intro i hi
+      have : i = 0 ∨ i = 1 := by simp at hi; omega
+      rcases this with rfl | rfl <;> exact ⟨false, rfl⟩
+    · simp only [Gam, List.map_cons, List.map_nil, Fm.sem]
+      congr 1
+      · congr 1; exact constOf_some.mpr (fun σ => by simp [over, upd])
+      · congr 1; congr 1; exact constOf_some.mpr (fun σ => by simp [over, upd])
+  · refine ⟨rfl, ?_, ?_, fun hc => by cases hc⟩
+    · intro i hi
+      have : i = 0 ∨ i = 1 := by simp at hi; omega
+      rcases this with rfl | rfl <;> exact ⟨true, rfl⟩
+    · simp only [Gam, List.map_cons, List.map_nil, Fm.sem]
+      congr 1
+      · congr 1; exact constOf_some.mpr (fun σ => by simp [over, upd])
+      · congr 1; congr 1; exact constOf_some.mpr (fun σ => by simp [over, upd])
+
+/-- the channel clause on a non-trivial instance: `ac(a) = b`, `ac(b) = a`, two-valued mode (models: both
+false, both true), a `bounded(1)` channel and the alternating schedule: for every heuristic the consumer's
+loop ends, it has received both models, and the last event at the sending end is the `close` -/
+example (h : SM.Heu) : ∃ m,
+    let c := NConc.chanRun (SM.heuCall h) (some 1) (List.flatten (List.replicate m [Chan.Ev.prod, Chan.Ev.cons]))
+      (buildNative 2 [.atom 1, .atom 0]).1 2 (buildNative 2 [.atom 1, .atom 0]).2 false
+    c.consDone = true ∧ [some false, some false] ∈ c.got.map (fun v => v.map storeIsConst) ∧
+    [some true, some true] ∈ c.got.map (fun v => v.map storeIsConst) ∧ c.log.getLast? = some Chan.ChEv.close := by
+  obtain ⟨fuel, hd, h3⟩ := ng_search_exact_from_formulas h [.atom 1, .atom 0] false (by simp [VBOT])
+    (by intro f hf; simp at hf; rcases hf with rfl | rfl <;> simp [NConc.atomsLt])
+  rw [NConc.ngSearch_eq] at hd h3
+  let res := (NConc.cSearch (SM.heuCall h) fuel (buildNative 2 [.atom 1, .atom 0]).1 2 (buildNative 2 [.atom 1, .atom 0]).2 false).2.1
+  refine ⟨fuel + res.length + 1 + res.length + 1, ?_⟩
+  have ⟨_, b, _, d, e⟩ := NConc.channel_delivers (SM.heuCall h) (some 1) (buildNative 2 [.atom 1, .atom 0]).1 2
+    (buildNative 2 [.atom 1, .atom 0]).2 false hd
+    (List.flatten (List.replicate (fuel + res.length + 1 + res.length + 1) [Chan.Ev.prod, Chan.Ev.cons]))
+  have hcd := e (by intro k hk; cases hk; exact Nat.le_refl 1) _ (Chan.fair_alternating _) (Nat.le_refl _)
+  have ⟨hgot, hcl, _⟩ := d hcd
+  refine ⟨hcd, ?_, ?_, ?_⟩
+  · rw [hgot]; exact (h3.2 _).mpr (mutual_support_models _ (Or.inl rfl))
+  · rw [hgot]; exact (h3.2 _).mpr (mutual_support_models _ (Or.inr rfl))
+  · rw [(b hcl).2]; simp
+
+/-- `heuristic_totality_necessary` on that instance: the heuristic that never answers makes the search return
+nothing, although two two-valued models exist (and are emitted under every heuristic of `SM.Heu`) -/
+example : ∃ fuel,
+    (NConc.cSearch (fun _ _ _ => none) fuel (buildNative 2 [.atom 1, .atom 0]).1 2 (buildNative 2 [.atom 1, .atom 0]).2 false).2.2.2 = true ∧
+    (NConc.cSearch (fun _ _ _ => none) fuel (buildNative 2 [.atom 1, .atom 0]).1 2 (buildNative 2 [.atom 1, .atom 0]).2 false).2.1 = [] :=
+  NConc.first_call_none_compiled (fun _ _ _ => none) (fun _ _ => rfl) [.atom 1, .atom 0] false (by simp [VBOT])
+    (by intro f hf; simp at hf; rcases hf with rfl | rfl <;> simp [NConc.atomsLt])
+    [some false, some false] [some true, some true] (by decide) mutual_support_models
+
 /-- the laws of the semantic instance are satisfiable by a real start state (grounded interpretation
 of a one-statement framework) -/
 example : NSem.OkV ([1].map (eval Store.init)) 1 true
@@ -294,6 +447,11 @@ example : NSem.OkV ([1].map (eval Store.init)) 1 true
   (NConc.init_facts Store.init 1 [1] true WF_init' (by simp [Store.init]) rfl).2.2.1
 
 end C05
+#print axioms C05.ng_search_exact
+#print axioms C05.channel_variants_deliver_exactly
+#print axioms C05.channel_variants_any_heuristic
+#print axioms C05.iterator_variant_exact
+#print axioms C05.heuristic_totality_necessary
 
 /-! the side condition of the two-valued mode is necessary: statement 0 with the foreign variable 5 as
 its condition — the model emits `[1]` and `[0]` in two-valued mode, though no fixpoint of `Γ` exists
